@@ -33,6 +33,10 @@ CHECKS = {
    text="Store.tla's ReadOnlyUnchanged action property is checked exhaustively; on the real server a byte-level dump of both tables is compared around every read step of generated histories and around 19 read/syntax requests (never-seen names over every check transport, expand, list, namespaces, syntax check, and write methods sent to the read and syntax routers) after every step.",
    note="sqlite only; the dump covers keto_relation_tuples and keto_uuid_mappings.",
    technique="TLA+ model checking (TLC) + dump comparison around spec-generated read requests", ref="4/C17"),
+ "C07": dict(
+   text="Pager.tla models keyset pagination (matching rows with id > token, ascending, LIMIT n+1, drop the extra row) with writers inserting rows at arbitrary storage positions and deleting rows between fetches; TLC checks exhaustively that pages are bounded, ascending, duplicate-free, that rows present for the whole iteration come back exactly once, that the concatenation is exact without writers and that the token is empty iff no further row existed. TLC-generated behaviours are replayed page by page on the real persister over REST, gRPC and the Manager (8 query shapes, storage positions imposed through shard_id) and every page and token must equal the model's; size tables around the 1/n/100/101/201 boundaries and malformed tokens are checked too.",
+   note="Exhaustive: 5-6 row ids, page sizes 1..3, 2-3 writer steps. sqlite only; positions are imposed by rewriting shard_id.",
+   technique="TLA+ model checking (TLC) + TLC-generated behaviours replayed page by page", ref="4/C07"),
 }
 NOT_YET = "check not built yet in this session (work in progress, see DESIGN.md section 12)"
 
